@@ -88,6 +88,7 @@ struct World {
   std::vector<std::string> requested_section_names;   // index = section id (0 = .text)
   std::vector<int> errs;
   FuncNode* func = nullptr;
+  size_t ra_labels = 0;      // labels created inside finalize() (by the register allocator / serialisation), cumulative
   std::vector<void*> kept;   // heap perturbation blocks kept alive until the end of the case
 };
 
@@ -283,7 +284,11 @@ static void run_op(World& w, const std::string& op) {
                 break; }
     case 'E': { if (w.kind != 'c') break;
                 err = static_cast<BaseCompiler*>(e)->end_func(); w.func = nullptr; break; }
-    case 'Z': { if (w.kind == 'a') break; err = e->finalize(); break; }
+    case 'Z': { if (w.kind == 'a') break;
+                size_t before = w.code->label_count();
+                err = e->finalize();
+                w.ra_labels += w.code->label_count() - before;
+                break; }
     default: err = Error::kInvalidArgument; break;
   }
   w.errs.push_back(int(err));
@@ -375,6 +380,7 @@ static std::string state_line(World& w) {
   else o << "/0/0";
   // one-shot state pending for the next instruction (options / extra register / inline comment)
   o << "/" << int(w.em->inst_options() != InstOptions::kNone || w.em->extra_reg().is_reg() || w.em->inline_comment() != nullptr);
+  o << "/" << w.ra_labels;       // not part of the model's observation: input for programs whose finalize() creates labels
   return o.str();
 }
 
